@@ -67,6 +67,14 @@ Proof. unfold uniq. rewrite uniq_aux_In. cbn. tauto. Qed.
 Lemma uniq_NoDup l : NoDup (uniq l).
 Proof. apply uniq_aux_NoDup. Qed.
 
+Lemma NoDup_snoc {A} (l : list A) (k : A) : NoDup l -> ~ In k l -> NoDup (l ++ [k]).
+Proof.
+  induction l as [|a l IH]; intros Hnd Hn; cbn [app]; [constructor; [intros []|constructor]|].
+  inversion Hnd as [|? ? Ha Hl]; subst. constructor.
+  - intros Hin. apply in_app_or in Hin. destruct Hin as [Hin|[<-|[]]]; [exact (Ha Hin)|]. apply Hn. left. reflexivity.
+  - apply IH; [exact Hl|]. intros Hin. apply Hn. right. exact Hin.
+Qed.
+
 (* decidable list equality helpers for the case files *)
 Fixpoint list_eqb {A} (eqb : A -> A -> bool) (l1 l2 : list A) : bool :=
   match l1, l2 with
